@@ -49,3 +49,4 @@ CONSTANTS
  PeerWhileDisc = FALSE
  LateFrames = FALSE
  CrossVersion = FALSE
+ Restore = FALSE
